@@ -91,6 +91,10 @@ inductive XOp where
   | apGetValue (k : Nat) (name : String)
   | apAt (k i : Nat)                        -- `getParameter_(index)`
   | apNameNoNs (k : Nat) (name : String)    -- `getParameterNameWithoutNamespace(name)`
+  /-- owner of `L[j]` := copy of the owner of `L[k]` (implicit copy constructor / copy assignment of
+  `AbstractParametrizable`: `parameters_` through the cloning copy constructor / `operator=` of
+  `ParameterList`, `prefix_` copied) -/
+  | apCopy (k j : Nat)
 
 inductive XOut where
   | base (o : Out)
@@ -135,6 +139,10 @@ def xstep (s : State) : XOp → State × XAns
     | .error e => (s, ⟨.base (.err e), none⟩)
   | .apAt k i => xOfExcept s (apParameterAt (s.lists k) i)
   | .apNameNoNs k n => (s, ⟨.str (nameWithoutNamespace (s.pre k) n), none⟩)
+  | .apCopy k j =>
+    let r := cloneAll s.heap (s.lists k)
+    ({ (s.withHeap r.1).setList j r.2 with pre := fun x => if x = j then s.pre k else s.pre x },
+     ⟨.base .ok, none⟩)
 
 def xrun (s : State) : List XOp → State
   | [] => s
